@@ -35,6 +35,8 @@ pub struct Report {
     pub exhaustive_evaluations: u64,
     pub exhaustive_families: Vec<Value>,
     pub frozen: bool,
+    /// only decode the case (advance the enumeration), do not check it
+    pub decode_only: bool,
     pub notes: Vec<String>,
 }
 
